@@ -470,7 +470,19 @@ def get_infected_nodes_scripted(scn, ref, EoN):
         return fl(scn["delay"][o[1] - 1][o[2] - 1])
     I0 = [u for u in nodes if scn["init"][u - 1] == "I"]
     R0 = [u for u in nodes if scn["init"][u - 1] == "R"]
-    leaf = scripted.run_scripted(lambda: EoN.get_infected_nodes(G, tau, gamma, initial_infecteds=list(I0),
+    # "node or iterable of nodes": list, set, tuple, a bare node, a one-shot iterator or a generator
+    style = (sum(scn["dur"]) + len(I0)) % 5
+    def as_style(xs):
+        if style == 1:
+            return set(xs)
+        if style == 2:
+            return iter(list(xs))
+        if style == 3:
+            return (x for x in list(xs))
+        if style == 4 and len(xs) == 1:
+            return xs[0]
+        return list(xs)
+    leaf = scripted.run_scripted(lambda: EoN.get_infected_nodes(G, tau, gamma, initial_infecteds=as_style(I0),
                                                                  initial_recovereds=list(R0) if R0 else None), [], delays=delays)
     if leaf.error is not None:
         return [("exception:%s" % type(leaf.error).__name__, "get_infected_nodes raised %r" % (leaf.error,))]
